@@ -56,6 +56,9 @@ package rendering
 //@ funcfield InvokeRenderer.tracingHeaderParser
 //@   modifies nothing
 
+//@ func NewRenderingService
+//@   modifies nothing
+//@   ensures [new] r0 != nil && fresh(r0)
 //@ func (*EventRenderingService).SetRenderer
 //@   modifies s.currentState
 //@   ensures [set] s.currentState == state
